@@ -157,7 +157,7 @@ def _task(tkey, name, tier):
     obs = []
     t_start = time.time()
     budget = 40 if tier == 'quick' else 600
-    qt = 10000 if tier == 'quick' else 60000
+    qt = 30000 if tier == 'quick' else 120000
     documented = {c.__name__ for c in lib.documented}
     structural = {c.__name__ for c in lib.structural}
 
